@@ -1,0 +1,11 @@
+//go:build verif
+
+package rust
+
+// Verification hooks for C07/C08 (additive, only under the build tag "verif").
+
+// VerifIsPrintable exposes isPrintable (Rust's is_printable tables).
+func VerifIsPrintable(r rune) bool { return isPrintable(r) }
+
+// VerifIsGraphemeExtended exposes isGraphemeExtended.
+func VerifIsGraphemeExtended(r rune) bool { return isGraphemeExtended(r) }
